@@ -60,7 +60,7 @@ def eval_cfg(toks):
         raise ExtractError("cfg parse: unknown predicate %s" % t.text)
     return pred()
 
-DROP_ATTRS = ("doc", "allow", "inline", "must_use", "derive", "deprecated", "error")
+DROP_ATTRS = ("doc", "allow", "inline", "must_use", "derive", "deprecated", "error", "macro_export", "macro_use", "test", "should_panic", "ignore")
 
 class Item:
     def __init__(self, file, header, kind, name, start, end, line0, line1, text, attrs):
